@@ -19,7 +19,7 @@ def main(run):
         run.cov["samples"].append(st.pop("sample"))
     run.cov["rule"] = ("corpus/T03 (the grammar's edges with the recorded outcome) + seeded price files, two thirds from the valid stream: 1-9 lines over "
                        "1-5 commodities (ASCII, Latin-1, currency signs, Greek, CJK, combining marks, digits/-/_/middle dot inside), time stamps as date only / "
-                       "date-time / with 1-9 fraction digits / Z / +-hh:mm (years 0001-9999, mostly recent; never next to 1970-01-01), rates with sign, "
+                       "date-time / with 1-9 fraction digits / Z / +-hh:mm (years 0001-9999, mostly recent; 7% within a day of 1970-01-01T00:00Z with fractions and offsets across the epoch), rates with sign, "
                        "leading zeros, scale 0-28, mantissas up to 2^96-1, 0 and -0; 1-6 blanks/TABs between the fields, trailing blanks, comments "
                        "(';', '; text', ';<TAB>text', with and without a blank before the ';'), LF or CRLF, after each line nothing / blank lines / "
                        "white-space lines / indentation of the next entry / lone CRs, leading blank lines, duplicate keys (same or different spelling of the "
